@@ -161,7 +161,8 @@ def check_property(prop, tier, seed, extra_parts=None):
                 other[w['c']] += 1
                 continue
             clause_counts[w['c']] += 1
-            if w['kf'] and w['kf'] in known and prop in known[w['kf']]['properties']:
+            native = w['c'].split('.')[0]   # a clause borrowed from another property keeps that property's recorded findings
+            if w['kf'] and w['kf'] in known and (prop in known[w['kf']]['properties'] or native in known[w['kf']]['properties']):
                 kf_seen[w['kf']] += 1
             else:
                 viol.setdefault(sid, []).append(w)
